@@ -10,8 +10,8 @@ from . import charworld as CW
 from . import match as M
 from .cfg import CFG, own_exprs
 from .srcmodel import AnalysisError, FuncInfo, norm, walk_function
-from .rules_reader import (Flow, origins, is_self_attr, is_self_call, self_name, live_methods, is_new_helper, callee_classes,
-                           ctor_arg, alias_of_self_attr, linear_form, _clean, matches)
+from .rules_reader import (Flow, ConsumingLoop, origins, is_self_attr, is_self_call, self_name, live_methods, is_new_helper, callee_classes,
+                           ctor_arg, lf_at, clone, _clean, matches)
 
 BREAKS = '\n\x85\u2028\u2029'
 
@@ -34,22 +34,6 @@ def _forward_effect(repo, cls, f, _memo, _stack=()):
                         res = True
     _memo[f] = res
     return res
-
-
-def clone(node, repl):
-    """copy of an expression (without parent links); repl(node) may supply a replacement for a sub-expression."""
-    r = repl(node)
-    if r is not None:
-        return r
-    new = type(node)()
-    for field, val in ast.iter_fields(node):
-        if isinstance(val, list):
-            setattr(new, field, [clone(x, repl) if isinstance(x, ast.AST) else x for x in val])
-        elif isinstance(val, ast.AST):
-            setattr(new, field, clone(val, repl))
-        else:
-            setattr(new, field, val)
-    return ast.copy_location(new, node)
 
 
 # ======================================================================================================================
@@ -107,6 +91,10 @@ def _mark_sources(repo, cls, flow, expr, at, memo, depth=0):
                 out.append(('callee', node, ''))
             else:
                 out.append(('other', node, norm(e)[:40]))
+        elif kind == 'expr' and not isinstance(e, (ast.Constant, ast.Call)):
+            # a mark kept somewhere this rule does not follow (an attribute, a container element)
+            raise AnalysisError('%s: a token mark is taken from %s, which is not a local, a parameter or a call (line %d)'
+                                % (f.qualname, norm(e)[:40], getattr(e, 'lineno', 0)))
         else:
             out.append(('other', node, norm(e)[:40] if isinstance(e, ast.AST) else kind))
     return out
@@ -227,64 +215,19 @@ class _LineAdvance:
     def __init__(self, repo, fw):
         self.repo = repo
         self.f = fw
-        self.flow = Flow(fw)
-        cfg = self.flow.cfg
+        self.cl = ConsumingLoop(fw)
+        self.flow = self.cl.flow
+        self.loop, self.head = self.cl.loop, self.cl.head
         self.adv = [n for n in walk_function(fw.node) if isinstance(n, ast.AugAssign) and is_self_attr(n.target, fw, 'line')
                     and isinstance(n.op, ast.Add)]
         if not self.adv:
             raise AnalysisError('Reader.forward: line counting not found')
-        loops = set()
-        for a in self.adv:
-            p = getattr(a, '_parent', None)
-            while p is not None and not isinstance(p, (ast.While, ast.For)):
-                p = getattr(p, '_parent', None)
-            if p is None:
-                raise AnalysisError('Reader.forward: the line is not advanced inside the consuming loop')
-            loops.add(p)
-        if len(loops) != 1:
-            raise AnalysisError('Reader.forward: more than one consuming loop')
-        self.loop = loops.pop()
-        if isinstance(self.loop, ast.While):
-            self.head = cfg.entry_of(self.loop)
-        else:
-            hn = cfg.nodes_of(self.loop.iter)
-            self.head = hn[0] if hn else None
-        if self.head is None:
-            raise AnalysisError('Reader.forward: consuming loop not on the control-flow graph')
-        self.incs = [self.flow.node_of(s) for s in ast.walk(self.loop) if isinstance(s, ast.AugAssign) and is_self_attr(s.target, fw, 'pointer')]
-        self.in_iter = cfg.reach([m for (m, lab) in cfg.succ[self.head]], blocked=[self.head])
-
-    def _incs_before(self, r):
-        """how many pointer increments have certainly happened in this iteration when node r executes; None if it depends
-        on the path."""
-        cfg = self.flow.cfg
-        k = 0
-        for p in self.incs:
-            a = p.ast
-            if not (isinstance(a.op, ast.Add) and isinstance(a.value, ast.Constant) and a.value.value == 1):
-                return None
-            if p is r:
-                continue
-            maybe = p in self.in_iter and r in cfg.reach([m for (m, lab) in cfg.succ[p]], blocked=[self.head])
-            if not maybe:
-                continue
-            certainly = r not in cfg.reach([m for (m, lab) in cfg.succ[self.head]], blocked=[self.head, p])
-            if not certainly:
-                return None
-            k += 1
-        return k
+        inside = {id(x) for x in ast.walk(self.loop)}
+        if not all(id(a) in inside for a in self.adv):
+            raise AnalysisError('Reader.forward: the line is not advanced inside the consuming loop')
 
     def _read_offset(self, e, node):
-        """e (evaluated at node) reads the buffer at pointer+k: offset of that character from the iteration's start"""
-        if not (isinstance(e, ast.Subscript) and alias_of_self_attr(self.flow, e.value, node, 'buffer')):
-            return None
-        lf = linear_form(e.slice)
-        if lf is None or lf.get('%s.pointer' % self_name(self.f)) != 1 or set(_clean(lf)) - {'%s.pointer' % self_name(self.f), ''}:
-            return None
-        if node not in self.in_iter:
-            return None
-        b = self._incs_before(node)
-        return None if b is None else lf.get('', 0) + b
+        return self.cl.read_offset(e, node)
 
     def instantiate(self, test, chars):
         """test with every buffer read replaced by chars[offset] (unknown offsets are left alone)"""
@@ -434,9 +377,9 @@ def r_key_before_value(ctx, repo):
     for c in ins:
         at = flow.node_of(c)
 
-        def atom(x, at=at):
+        def atom(x, at):
             return '<key>.token_number' if isinstance(x, ast.Attribute) and x.attr == 'token_number' and saved_key(x.value, at) else None
-        if _clean(linear_form(c.args[0], atom)) != {'<key>.token_number': 1, '%s.tokens_taken' % sn: -1}:
+        if _clean(lf_at(flow, c.args[0], at, atom)) != {'<key>.token_number': 1, '%s.tokens_taken' % sn: -1}:
             at_saved = False
         for k in _built_classes(repo, S, flow, c.args[1], at) or ['?']:
             kinds.setdefault(k, []).append(at)
@@ -476,7 +419,7 @@ def r_key_before_value(ctx, repo):
                 recorded = False
                 continue
             for k2, y, n2, i2 in origins(gflow, tn, node):
-                if k2 != 'expr' or _clean(linear_form(y)) != {'%s.tokens_taken' % gs: 1, 'len(%s.tokens)' % gs: 1}:
+                if k2 != 'expr' or _clean(lf_at(gflow, y, n2)) != {'%s.tokens_taken' % gs: 1, 'len(%s.tokens)' % gs: 1}:
                     recorded = False
     if recorded:
         rule.ok(g.loc(), 'candidate recorded as tokens_taken + len(tokens) for the current flow level')
@@ -706,12 +649,14 @@ def r_event_marks(ctx, repo):
     for f in live_methods(repo, P):
         sites = []
         flow = None
+        assigned = set(f.params) | {n.id for n in walk_function(f.node) if isinstance(n, ast.Name) and isinstance(n.ctx, ast.Store)}
         for c in A.func_calls(f.node):
             if is_self_call(c, f, 'process_empty_scalar') and c.args:
                 sites.append((c, 'empty scalar', [c.args[0]]))
             elif isinstance(c.func, ast.Name):
+                # an End event class by name, or a local / parameter that may hold one
                 r = repo.resolve_name(f.module, c.func.id)
-                if c.func.id not in f.params and not (r is not None and r.kind == 'class' and r.obj.name in END_EVENTS):
+                if c.func.id not in assigned and not (r is not None and r.kind == 'class' and r.obj.name in END_EVENTS):
                     continue
                 flow = flow or Flow(f)
                 ks = callee_classes(repo, P, flow, c)
